@@ -1,5 +1,6 @@
 import RgVerif.Model.Decode
 import RgVerif.Model.Utf8
+import RgVerif.Spec.SjisTable
 /-
 C17 — independent specification of "the UTF-8 transcoding of an input" (WHATWG Encoding Standard:
 malformed sequences become U+FFFD), written on the *whole* byte string, with no state machine.
@@ -95,6 +96,26 @@ def win1252 (b : Nat) : Nat := if 0x80 ≤ b ∧ b < 0xA0 then win1252High.getD 
 /-- windows-1252 → UTF-8 (a single-byte encoding: no state, nothing malformed). -/
 def transcode1252 (bs : Bytes) : Bytes := bs.flatMap fun b => utf8Encode (win1252 b)
 
+/-- Shift_JIS → UTF-8 on the whole string (WHATWG): single bytes, half-width katakana, two-byte sequences
+through the index; a lead without a valid partner is U+FFFD, and an ASCII byte after it is kept. -/
+def transcodeSjis (idx : Nat → Option Nat) : Bytes → Bytes
+  | [] => []
+  | b :: rest =>
+    if b ≤ 0x80 then utf8Encode b ++ transcodeSjis idx rest
+    else if 0xA1 ≤ b && b ≤ 0xDF then utf8Encode (0xFF61 - 0xA1 + b) ++ transcodeSjis idx rest
+    else if sjisIsLead b then
+      match rest with
+      | [] => utf8Encode replacement
+      | t :: r =>
+        match sjisPair idx b t with
+        | some c => utf8Encode c ++ transcodeSjis idx r
+        | none =>
+          if t < 0x80 then utf8Encode replacement ++ utf8Encode t ++ transcodeSjis idx r
+          else utf8Encode replacement ++ transcodeSjis idx r
+    else utf8Encode replacement ++ transcodeSjis idx rest
+termination_by bs => bs.length
+decreasing_by all_goals (simp_wf; try omega)
+
 /-- The reference transcoder per encoding; encodings that are not modelled are a parameter. -/
 def transcode (other : Nat → Bytes → Bytes) : Enc → Bytes → Bytes
   | .utf8 => transcode8
@@ -127,6 +148,18 @@ def machines (m8 : Machine) (mo : Nat → Machine) : Enc → Machine
   | .utf16le => utf16Machine false
   | .utf16be => utf16Machine true
   | .other id => mo id
+
+/-- The table-driven encodings that are modelled: 0 = windows-1252 (labels latin1, iso-8859-1, ascii …),
+1 = Shift_JIS; anything else is passed through byte by byte (placeholder). -/
+def otherSpec : Nat → Bytes → Bytes
+  | 0 => transcode1252
+  | 1 => transcodeSjis Sjis.index
+  | _ => fun bs => bs.flatMap fun b => utf8Encode b
+
+def otherMachine : Nat → Machine
+  | 0 => tableMachine win1252
+  | 1 => sjisMachine Sjis.index
+  | _ => tableMachine id
 
 /-- `bs` starts with the mark of encoding `e` (what `new_decoder_with_bom_removal` strips). -/
 def ownMark : Enc → Bytes → Bool
